@@ -218,6 +218,67 @@ func c09r3(r *R) {
 	}
 	p := c.escapePath(inner, nil, deleg, isReturn)
 	o.Check(p == nil, "the wrapper does not delegate to the wrapped handler with (w, r) on every path: %v", p)
+	// … and the handler delegated to is the wrapped one (the default mux only stands in for a nil handler)
+	eachInstr(inner, func(i ssa.Instruction) {
+		if !deleg(i) {
+			return
+		}
+		recv := unwrapIface(callArgs(callOf(i))[0])
+		if u, ok := recv.(*ssa.UnOp); ok && u.Op == token.MUL {
+			recv = u.X
+		}
+		fv, isFV := recv.(*ssa.FreeVar)
+		if !o.AtI(i).Check(isFV, "the wrapper delegates to %s, want the handler it wraps", c.Expr(recv)) {
+			return
+		}
+		var bound ssa.Value
+		eachInstr(comp, func(j ssa.Instruction) {
+			if mc, ok := j.(*ssa.MakeClosure); ok && mc.Fn == ssa.Value(inner) {
+				for k, v := range inner.FreeVars {
+					if v == fv && k < len(mc.Bindings) {
+						bound = mc.Bindings[k]
+					}
+				}
+			}
+		})
+		if !o.Check(bound != nil, "cannot find what the wrapper's handler variable is bound to") {
+			return
+		}
+		type hc struct {
+			e  string
+			gs []string
+		}
+		var cases []hc
+		cellName := ""
+		if cell, ok := bound.(*ssa.Alloc); ok {
+			cellName = c.Expr(cell)
+			eachInstr(comp, func(j ssa.Instruction) {
+				if st, ok := j.(*ssa.Store); ok && st.Addr == ssa.Value(cell) {
+					cases = append(cases, hc{c.Expr(unwrapIface(st.Val)), c.guardStrs(st.Block())})
+				}
+			})
+		} else {
+			var blk *ssa.BasicBlock
+			if bi, ok := bound.(ssa.Instruction); ok {
+				blk = bi.Block()
+			}
+			for _, vc := range c.valueCases(bound, blk) {
+				cases = append(cases, hc{vc.E, vc.Guards})
+			}
+		}
+		o.Check(len(cases) > 0, "the wrapper's handler variable is never set")
+		for _, vc := range cases {
+			switch {
+			case vc.e == "p0":
+			case strings.Contains(vc.e, "DefaultServeMux"):
+				// the variable is a captured cell: a nil test of the cell is a test of p0 when p0 was stored first, unconditionally
+				cellNil := cellName != "" && len(cases) > 0 && cases[0].e == "p0" && len(cases[0].gs) == 0 && relHolds(vc.gs, "*"+cellName, "==", "nil")
+				o.Check(hasGuard(vc.gs, "+(nil == p0)") || cellNil, "the wrapper replaces the configured handler by the default mux under %v (want only when no handler is configured): HTTP/1.1 requests would not reach the reverse proxy", vc.gs)
+			default:
+				o.Fail("the wrapper delegates to %s", vc.e)
+			}
+		}
+	})
 	// TLS store
 	var tlsStore *ssa.Store
 	eachInstr(inner, func(i ssa.Instruction) {
